@@ -92,6 +92,37 @@ def run_parked(root, k, first, at_park, block_timeout=1.5):
     return out
 
 
+def interleaved(root, k, first, other):
+    """``first()`` runs in its own thread and is suspended at its k-th library line event while
+    ``other()`` runs to completion; then it resumes.  Returns first's result (or re-raises what it
+    raised) - used for non-interference checks: a call decides on its own arguments whatever
+    other calls do to shared objects in between."""
+    p = LineParker(root, k)
+    box = {}
+
+    def body():
+        sys.settrace(p.tracer)
+        try:
+            box['r'] = first()
+        except BaseException as ex:        # noqa
+            box['e'] = ex
+        finally:
+            sys.settrace(None)
+            p.parked.set()
+    t = threading.Thread(target=body)
+    t.start()
+    p.parked.wait()
+    if t.is_alive() and p.where is not None:
+        try:
+            other()
+        finally:
+            p.resume.set()
+    t.join()
+    if 'e' in box:
+        raise box['e']
+    return box.get('r')
+
+
 def run_in_thread(fn, timeout):
     """returns (finished_within_timeout, result_holder, thread)"""
     holder = {}
